@@ -339,6 +339,7 @@ class Ref:
         self.numq_all_ints = numq_all_ints
         self.idx, self.last = rt.pre_index(root)
         self.mx_cache = {}
+        self.cyclic = None
         self.flags = set()
         self.nonempty_domain = False
         self.lab = {p: n[0] for p, n in rt.nodes(root)}
@@ -347,6 +348,12 @@ class Ref:
         key = (T, json.dumps(mx))
         if key in self.mx_cache:
             return self.mx_cache[key]
+        if self.cyclic is None:
+            self.cyclic = rt.has_unit_cycle(self.cg)
+        if self.cyclic:
+            # A =>+ A: every match expression has infinitely many parses (and the grammar is outside the
+            # Earley parser's domain, which ISLa uses to parse match expressions): not judged
+            self.flags.add("ambiguous_mexpr")
         res = []
         for elems in mexpr_alternatives(mx):
             ps = abstract_parses(self.cg, T, mexpr_word(elems))
@@ -521,11 +528,25 @@ class Ref:
         if name == "level":
             op, T = args[0][1], args[1][1]
             a, b = path(args[2]), path(args[3])
-            if self.lab[a] == T or self.lab[b] == T:
-                self.flags.add("level_arg_is_T")
+            # three readings of the informal description (see props/c04_structural.py); judged only where they agree
             A = frozenset(a[:k] for k in range(len(a)) if self.lab[a[:k]] == T)
             B = frozenset(b[:k] for k in range(len(b)) if self.lab[b[:k]] == T)
-            return {"EQ": A == B, "GE": A <= B, "LE": B <= A, "GT": A < B, "LT": B < A}[op]
+            vals = {{"EQ": A == B, "GE": A <= B, "LE": B <= A, "GT": A < B, "LT": B < A}[op]}
+            k = 0
+            while k < min(len(a), len(b)) and a[k] == b[k]:
+                k += 1
+            prefixes = [()] + [a[:m] for m in range(1, k + 1) if self.lab[a[:m]] == T]
+            for incl in (0, 1):
+                r = False
+                for pfx in prefixes:
+                    o1 = [a[:m] for m in range(len(pfx) + 1, len(a) + incl) if self.lab[a[:m]] == T]
+                    o2 = [b[:m] for m in range(len(pfx) + 1, len(b) + incl) if self.lab[b[:m]] == T]
+                    r = r or {"EQ": not o1 and not o2, "GE": not o1, "LE": not o2, "GT": not o1 and bool(o2),
+                              "LT": not o2 and bool(o1)}[op]
+                vals.add(r)
+            if len(vals) > 1:
+                self.flags.add("level_readings_differ")
+            return sorted(vals)[0]
         a, b = path(args[0]), path(args[1])
         ia, la, ib, lb = self.idx[a], self.last[a], self.idx[b], self.last[b]
         if name == "before":
@@ -643,7 +664,7 @@ class FGen:
         self.lits = lits
         self.num = numeral_nts(cg)
         self.cnt = 0
-        o = dict(mexpr=0.4, opt=0.3, preds=True, count=True, numq=0.0, connectives=("and", "or", "not"), p_forall=0.5,
+        o = dict(mexpr=0.4, opt=0.3, preds=True, count=True, numq=0.0, connectives=("and", "or", "not"), p_forall=0.5, mexpr_depth=2,
                  unused=0.0, smt_ops=("eq", "eqv", "len", "toint", "prefix", "arith"), nth_level=True, max_depth=3)
         o.update(opts or {})
         self.o = o
@@ -653,7 +674,7 @@ class FGen:
         return "%s%d" % (prefix, self.cnt)
 
     def rand_prefix(self, T, depth):
-        if depth == 0 or chance(self.rnd, 0.3):
+        if depth == 0 or chance(self.rnd, 0.3 if depth <= 2 else 0.15):
             return (T, None)
         alt = pick(self.rnd, self.cg[T])
         if not alt:
@@ -686,7 +707,7 @@ class FGen:
 
     def mexpr_for(self, T):
         """match expression for bound type T from a random derivation prefix, or (None, [])"""
-        pt = self.rand_prefix(T, 2)
+        pt = self.rand_prefix(T, self.o["mexpr_depth"])
         if pt[1] is None:
             return None, []
         mx, binds = self.prefix_to_mexpr(pt)
@@ -831,7 +852,7 @@ class FGen:
         if k == "level":
             # strict sub-domain: neither argument labelled with the level nonterminal
             w, tw = pick(rnd, vs)
-            cands = [x for x in self.cg if x not in (t, tw) and x != "<start>"]
+            cands = [x for x in self.cg if x != "<start>"]
             if cands:
                 T = pick(rnd, cands)
                 return ["pred", "level", ["s", pick(rnd, ["EQ", "GE", "LE", "GT", "LT"])], ["s", T], ["v", v], ["v", w]]
@@ -846,6 +867,67 @@ class FGen:
                 return ["count", v, T, ["s", str(rnd.randint(0, 4))]]
         pool = self.lits.get(t) or ["zz"]
         return ["smt", ["=", ["var", v], ["str", pick(rnd, pool)]]]
+
+
+def reuse_names(rnd, f, pool=("v", "v_0", "v_1", "w", "w_0", "x1")):
+    """rename the tree-quantifier variables of f so that names are RE-USED in sibling scopes (same nonterminal
+    type only, never shadowing an enclosing binder) and look like the names ISLa's own renaming invents (v_0):
+    the shapes on which bound-variable renaming can capture.  Numeric variables and `start` keep their names."""
+    name_type = {}
+
+    def term(t, m):
+        if t[0] == "var":
+            return ["var", m.get(t[1], t[1])]
+        if t[0] in ("str", "int"):
+            return t
+        return [t[0]] + [term(a, m) for a in t[1:]]
+
+    def choose(T, in_scope):
+        cands = [n for n in pool if n not in in_scope and name_type.get(n, T) == T]
+        if not cands:
+            return None
+        n = pick(rnd, cands)
+        name_type[n] = T
+        return n
+
+    def go(x, m, in_scope):
+        k = x[0]
+        if k in ("forall", "exists"):
+            _, T, v, inv, mx, body = x
+            m2, scope2 = dict(m), set(in_scope)
+            nv = choose(T, scope2) or v
+            m2[v] = nv
+            scope2.add(nv)
+            nmx = None
+            if mx is not None:
+                def mxgo(elems):
+                    out = []
+                    for e in elems:
+                        if e[0] == "bind":
+                            nb = choose(e[1], scope2) or e[2]
+                            m2[e[2]] = nb
+                            scope2.add(nb)
+                            out.append(["bind", e[1], nb])
+                        elif e[0] == "opt":
+                            out.append(["opt", mxgo(e[1])])
+                        else:
+                            out.append(e)
+                    return out
+                nmx = mxgo(mx)
+            return [k, T, nv, m.get(inv, inv), nmx, go(body, m2, scope2)]
+        if k in ("forallint", "existsint"):
+            return [k, x[1], go(x[2], m, in_scope | {x[1]})]
+        if k in ("and", "or", "not", "implies", "iff", "xor"):
+            return [k] + [go(a, m, in_scope) for a in x[1:]]
+        if k == "smt":
+            return ["smt", term(x[1], m)]
+        if k == "count":
+            return ["count", m.get(x[1], x[1]), x[2], ["v", m.get(x[3][1], x[3][1])] if x[3][0] == "v" else x[3]]
+        if k == "pred":
+            return ["pred", x[1]] + [["v", m.get(a[1], a[1])] if a[0] == "v" else a for a in x[2:]]
+        return x
+
+    return go(f, {}, {"start"})
 
 
 def sample_lits(cg, trees, cap=10):
